@@ -19,11 +19,46 @@ pub struct C11;
 enum Kind {
     Satisfy,
     Iterate,
-    OptSatUnsat,
-    OptUnsatSat,
+    /// optimise x0 (or the view -x0+1 when `neg`) with LinearSatUnsat / LinearUnsatSat
+    Opt { unsat_sat: bool, maximise: bool, neg: bool },
 }
 
-const KINDS: [Kind; 4] = [Kind::Satisfy, Kind::Iterate, Kind::OptSatUnsat, Kind::OptUnsatSat];
+const KINDS: [Kind; 10] = [
+    Kind::Satisfy,
+    Kind::Iterate,
+    Kind::Opt { unsat_sat: false, maximise: false, neg: false },
+    Kind::Opt { unsat_sat: true, maximise: false, neg: false },
+    Kind::Opt { unsat_sat: false, maximise: true, neg: false },
+    Kind::Opt { unsat_sat: true, maximise: true, neg: false },
+    Kind::Opt { unsat_sat: false, maximise: false, neg: true },
+    Kind::Opt { unsat_sat: true, maximise: false, neg: true },
+    Kind::Opt { unsat_sat: false, maximise: true, neg: true },
+    Kind::Opt { unsat_sat: true, maximise: true, neg: true },
+];
+
+impl Kind {
+    fn objective(&self) -> View {
+        match self {
+            Kind::Opt { neg: true, .. } => View::new(0, -1, 1),
+            _ => View::id(0),
+        }
+    }
+    /// Is objective value `a` strictly better than `b`?
+    fn better(&self, a: i128, b: i128) -> bool {
+        match self {
+            Kind::Opt { maximise: true, .. } => a > b,
+            _ => a < b,
+        }
+    }
+    fn best(&self, sols: &[Vec<i32>]) -> Option<i128> {
+        let o = self.objective();
+        let vals = sols.iter().map(|s| o.eval(s));
+        match self {
+            Kind::Opt { maximise: true, .. } => vals.max(),
+            _ => vals.min(),
+        }
+    }
+}
 
 fn models(tier: Tier) -> Vec<Model> {
     let mut v = vec![];
@@ -64,7 +99,7 @@ impl Property for C11 {
     }
     fn rule(&self, tier: Tier) -> String {
         format!(
-            "Strides of M1/M3/M4 x solve kind {{satisfy, complete iteration, optimise LinearSatUnsat, optimise LinearUnsatSat}} x 2 branchers; a counting TerminationCondition first counts the polls N of the uninterrupted run (runs with N > {} are skipped and counted), then for EVERY k in 0..=N the run is repeated with should_stop() returning true from poll k on, and once more returning true only at poll k; a case = (model, kind, brancher) and each case performs 2(N+1) interrupted executions (counter interrupted_runs). Oracle: the result is Unknown, or (optimise) Satisfiable(best) with best a solution, or the CORRECT definitive answer; afterwards the same solver is asked the same question with a condition that never fires and must give the correct answer. Exhaustive over k.",
+            "Strides of M1/M3/M4 x solve kind {{satisfy, complete iteration, optimise with LinearSatUnsat / LinearUnsatSat x minimise / maximise x objective x0 / the view -x0+1}} x 2 branchers; a counting TerminationCondition first counts the polls N of the uninterrupted run (runs with N > {} are skipped and counted), then for EVERY k in 0..=N the run is repeated with should_stop() returning true from poll k on, and once more returning true only at poll k; a case = (model, kind, brancher) and each case performs 2(N+1) interrupted executions (counter interrupted_runs). Oracle: the result is Unknown, or (optimise) Satisfiable(best) with best a solution, or the CORRECT definitive answer; afterwards the same solver is asked the same question with a condition that never fires and must give the correct answer. Exhaustive over k.",
             max_polls(tier)
         )
     }
@@ -148,9 +183,9 @@ fn solve(
                 other => Outcome::Iterated(got, other),
             }
         }
-        Kind::OptSatUnsat | Kind::OptUnsatSat => {
+        Kind::Opt { unsat_sat, maximise, .. } => {
             let cb = RefCell::new(vec![]);
-            let objective = b.view(&View::id(0));
+            let objective = b.view(&kind.objective());
             let r = with_brancher(
                 br,
                 &mut b.solver,
@@ -160,8 +195,8 @@ fn solve(
                     ids: &ids,
                     term,
                     objective,
-                    maximise: false,
-                    unsat_sat: kind == Kind::OptUnsatSat,
+                    maximise,
+                    unsat_sat,
                     callback_solutions: &cb,
                 },
             );
@@ -187,7 +222,8 @@ fn judge(
     what: &str,
     cx: &mut CaseCtx,
 ) {
-    let best = sols.iter().map(|s| s[0]).min();
+    let best = kind.best(sols);
+    let obj = kind.objective();
     match out {
         Outcome::Sat(a) => {
             if !sols.contains(a) {
@@ -231,10 +267,10 @@ fn judge(
             }
         }
         Outcome::Optimal(a) => {
-            if !sols.contains(a) || Some(a[0]) != best {
+            if !sols.contains(a) || Some(obj.eval(a)) != best {
                 cx.violation(
                     if interrupted { "optimal-because-interrupted" } else { "wrong-optimum" },
-                    format!("{what}: Optimal {a:?} but the true minimum of x0 is {best:?}"),
+                    format!("{what}: Optimal {a:?} but the true optimum of {obj} is {best:?}"),
                 );
             }
         }
@@ -306,9 +342,12 @@ fn run_case(model: &Model, sols: &[Vec<i32>], kind: Kind, br: &BrancherSpec, max
             // LinearSatUnsat leaves `x0 <= incumbent - 1` in the solver (the C10 finding). A wrong
             // re-solve that is exactly what this leftover bound explains is reported under the
             // suffix of that finding; anything else is reported as it is.
-            let leftover: Option<Vec<Vec<i32>>> = if kind == Kind::OptSatUnsat {
+            let leftover: Option<Vec<Vec<i32>>> = if matches!(kind, Kind::Opt { unsat_sat: false, .. }) {
+                let o = kind.objective();
                 match &out {
-                    Outcome::Best(a) | Outcome::Optimal(a) => Some(remaining.iter().filter(|s| s[0] < a[0]).cloned().collect()),
+                    Outcome::Best(a) | Outcome::Optimal(a) => {
+                        Some(remaining.iter().filter(|s| kind.better(o.eval(s), o.eval(a))).cloned().collect())
+                    }
                     _ => None,
                 }
             } else {
